@@ -181,7 +181,7 @@ theorem step_sids (guard : SplitGuard) (s : State) (op : Op) :
     | none => left; exact ⟨rfl, rfl⟩
     | some nf =>
       simp only
-      by_cases hp : hasImsiPrefix r.supi = true
+      by_cases hp : supiAccepted r.supi = true
       · right
         simp only [hp, not_true_eq_false, if_false]
         refine ⟨(match findUe s.ues r.supi with | some u => u | none => { supi := r.supi }), _, ?_, rfl, ?_, ?_⟩
